@@ -378,11 +378,46 @@ class Listener2:
         self.got.append(dt)
 
 
-def h_update(sp, max_listeners=3, frames=2):
+class LateProc(desper.Processor):
+    def __init__(self):
+        self.calls = []
+
+    def process(self, dt):
+        self.calls.append(dt)
+
+
+@desper.event_handler('on_update')
+class Adder:
+    """an on_update listener that, the first time it is told, registers one more processor in its world"""
+
+    def __init__(self, world, priority):
+        self.got = []
+        self.world_ = world
+        self.priority = priority
+        self.added = None
+
+    def on_update(self, dt):
+        self.got.append(dt)
+        if self.added is None:
+            self.added = LateProc()
+            if self.priority is None:
+                self.world_.add_processor(self.added)
+            else:
+                self.world_.add_processor(self.added, priority=self.priority)
+
+
+def h_update(sp, max_listeners=3, frames=2, adder=False):
     w = World()
     w.add_processor(desper.OnUpdateProcessor())
     n = sp.choose(max_listeners + 1, 'n-listeners')
     ls = []
+    if adder:
+        # the priority of the processor added from inside the callback is an unbounded solver integer (or omitted)
+        prio = sp.int('late-priority') if sp.flag('explicit-priority') else None
+        a = Adder(w, prio)
+        ls.append(a)
+        w.create_entity(a)
+        sp.cover('listener-adds-processor')
     for i in range(n):
         l = Listener2() if sp.flag('mapped%d' % i) else Listener()
         ls.append(l)
@@ -398,6 +433,12 @@ def h_update(sp, max_listeners=3, frames=2):
                      'listener got %r in frame %d (dt object %r)' % (l.got, f, dt))
         if ls:
             sp.cover('relayed')
+    if adder:
+        sp.check(a.added is not None and w.get_processor(LateProc) is a.added, 'effect',
+                 'the processor added from inside on_update is not registered')
+        n_calls = len(a.added.calls)
+        sp.check(frames - 1 <= n_calls <= frames, 'late-processor-runs',
+                 'the processor added in frame 0 ran %d times in %d frames' % (n_calls, frames))
     sp.done()
 
 
@@ -410,10 +451,12 @@ HARNESSES = {
     'update': dict(fn=h_update, nontrivial=['relayed'], required=['relayed'], split=False),
 }
 TIERS = {
-    'quick': [('twin', dict(steps=1, second_types=1)),
+    'quick': [('update', dict(max_listeners=2, frames=2, adder=True), dict(required=['relayed', 'listener-adds-processor'])),
+              ('twin', dict(steps=1, second_types=1)),
               ('twin', dict(steps=3, focus='procs'), dict(required=PROC_OPS + ['direct-world-op'])),
               ('proto', dict(n_types=2)), ('update', dict())],
-    'thorough': [('twin', dict(steps=2)), ('twin', dict(steps=4, focus='procs'), dict(required=PROC_OPS + ['direct-world-op'])), ('proto', dict(n_types=3)), ('update', dict(max_listeners=4, frames=3))],
+    'thorough': [('update', dict(max_listeners=3, frames=3, adder=True), dict(required=['relayed', 'listener-adds-processor'])),
+                 ('twin', dict(steps=2)), ('twin', dict(steps=4, focus='procs'), dict(required=PROC_OPS + ['direct-world-op'])), ('proto', dict(n_types=3)), ('update', dict(max_listeners=4, frames=3))],
 }
 BUDGET_S = {'quick': 150, 'thorough': 1500}
 EXPLANATION = (
@@ -429,7 +472,8 @@ RULE = ('one evaluation = one feasible path (state bits x operation, or recipe b
 BOUNDS = {'quick': 'twin: id 1 x 3 types (A, B(A), X), id 2 x 1 type + dead + 2 processors, controller on either id, 1 operation of 14; '
                    'proto: <=2 listed types; update: <=3 listeners, 2 frames',
           'thorough': 'twin: 2 operations; proto: <=3 listed types; update: <=4 listeners, 3 frames'}
-ASSUMPTIONS = ['component identity is compared through (class name, tag) because twin worlds hold mirrored instances',
+ASSUMPTIONS = ['an on_update listener may register one more processor (symbolic priority) from inside its callback: every listener must still be told each frame\'s dt exactly once; whether the new processor already runs in that frame is don\'t-care',
+               'component identity is compared through (class name, tag) because twin worlds hold mirrored instances',
                'a reference is only assigned an instance of its declared type (the descriptor asserts it)',
                'init_methods is resolved by ordinary attribute lookup: a subclass that defines init_methods replaces the inherited dictionary']
 OUTSIDE = ['controllers whose entity/world attributes were never set', 'Prototype.__init__ arguments (user code)']
